@@ -2,7 +2,9 @@
    STACK WIN / CFI sites are C06/C07's).  "_refuted" theorems are about the `_v0` models, i.e.
    the code before the fix commits recorded in known_findings.json. *)
 From Coq Require Import Lia.
-From RM Require Import C08.Model C08.Proofs C03.Model C03.Proofs.
+From RM Require Import C08.Model C08.Proofs C03.Model C03.Proofs C03.ArgModel C03.ArgProofs C03.Compose.
+From RM Require C11.Model C11.Proofs2 C11.Properties.
+From RM Require C05.Model C05.Proofs C05.Driver C05.Properties.
 Open Scope Z_scope.
 
 (* ---- LinuxProcLimits::from: no index panic for any stream contents *)
@@ -120,6 +122,78 @@ Proof.
 Qed.
 Print Assumptions c03_no_panic_sites.
 
+
+(* ---- arg_recovery (x86, recover_function_args): splitting a function name of arbitrary Unicode
+   text never slices inside a character, and the counters / read head cannot overflow *)
+Theorem c03_arg_list_total : forall p (name : str), blen name < 2 ^ 31 ->
+  exists r, parse_x86_arg_list p name = Ret r.
+Proof. exact parse_x86_arg_list_total. Qed.
+Print Assumptions c03_arg_list_total.
+
+Theorem c03_arg_reads_total : forall p nargs sp1 sp2 stack_base,
+  (forall s, sp1 = Some s -> 0 <= s < two32) -> (sp1 = None -> sp2 = None) ->
+  0 <= stack_base < two64 -> Z.of_nat nargs < 2 ^ 31 ->
+  exists r, arg_reads p nargs sp1 sp2 stack_base = Ret r.
+Proof. exact arg_reads_total. Qed.
+Print Assumptions c03_arg_reads_total.
+
+(* the model expresses char-boundary panics: slicing one byte into the text after the last `)`
+   (the seeded change C03-2) traps when a two-byte character follows the parenthesis *)
+Theorem c03_arg_junk_slice_refuted : exists name, junk_tail name = Panic PANIC_BOUNDARY.
+Proof. exists [102; 40; 41; 160; 99]. exact junk_tail_panics. Qed.
+Print Assumptions c03_arg_junk_slice_refuted.
+
+(* ---- c03_render_total with its hypotheses discharged: module from the C08 lookup, function and
+   source-line bases from C11's c11_func_sound / c11_line_sound *)
+Theorem c03_render_total_discharged : forall p q rf mods instr i m o,
+  wf_mods mods -> 0 <= instr < two64 -> C11.Proofs2.wf_file rf ->
+  rm_get (module_table mods) instr = Some i -> nth_error mods (Z.to_nat i) = Some m ->
+  C11.Model.symbolize q rf (fst m) instr = Ret o ->
+  (exists a, text_frame_offset p (frame_of instr (fst m) o) = Ret a) /\
+  (exists b, json_frame_offsets p (frame_of instr (fst m) o) = Ret b).
+Proof. exact render_total_discharged. Qed.
+Print Assumptions c03_render_total_discharged.
+
+(* ---- top level (partial): the stages of processing a thread, each total.  Walking terminates
+   within fuel |stack| + 3 with at most |stack| + 2 frames (C05); every site outside the walker
+   returns without Panic (this file); every frame symbolised by C11 inside a module found by C08
+   renders; argument recovery on any name cannot trap.  What is NOT composed here: the glue between
+   the stages (async plumbing, the disassembler, serde_json) — search harness only. *)
+Theorem c03_process_total_partial :
+  (forall p a os mem module_at max_module_addr cfi_walk instr_valid,
+     C05.Proofs.arch_ok a -> C05.Proofs.mem_wf mem ->
+     (forall callee gc fwd r v, cfi_walk callee gc fwd = Some (r, v) -> C05.Proofs.regs_wf a r) ->
+     forall r v, C05.Proofs.regs_wf a r ->
+     exists fs, C05.Model.walk_stack C05.Model.current_code p a os mem module_at max_module_addr cfi_walk instr_valid
+                  (C05.Model.fuel_for mem) r v = Ret fs /\
+                (length fs <= length (C05.Model.m_bytes mem) + 2)%nat) /\
+  (forall data tag, limits_from data <> Panic tag) /\
+  (forall p rs addr tag, wf_minfo rs -> guard_site p rs addr <> Panic tag) /\
+  (forall (A : Type) (threads : list A) ids d w tag, length threads = length ids ->
+     index_requesting threads ids d w <> Panic tag) /\
+  (forall p base size tag, 0 <= base -> 0 <= size -> module_read_ok base size = true ->
+     json_end_addr p base size <> Panic tag /\ text_end_addr p base size <> Panic tag) /\
+  (forall p mods instr tag, wf_mods mods -> 0 <= instr < two64 ->
+     module_offset p mods instr <> Panic tag /\ unloaded_offsets p mods instr <> Panic tag) /\
+  (forall p q rf mods instr i m o tag,
+     wf_mods mods -> 0 <= instr < two64 -> C11.Proofs2.wf_file rf ->
+     rm_get (module_table mods) instr = Some i -> nth_error mods (Z.to_nat i) = Some m ->
+     C11.Model.symbolize q rf (fst m) instr = Ret o ->
+     text_frame_offset p (frame_of instr (fst m) o) <> Panic tag /\
+     json_frame_offsets p (frame_of instr (fst m) o) <> Panic tag) /\
+  (forall p name tag, blen name < 2 ^ 31 -> parse_x86_arg_list p name <> Panic tag).
+Proof.
+  split; [exact C05.Properties.c03_frame_bound|].
+  destruct c03_no_panic_sites as [S1 [S2 [S3 [_ [S5 S6]]]]].
+  split; [exact S1|]. split; [exact S2|]. split; [exact S6|]. split; [exact S3|]. split; [exact S5|].
+  split.
+  - intros p q rf mods instr i m o tag H1 H2 H3 H4 H5 H6.
+    destruct (render_total_discharged p q rf mods instr i m o H1 H2 H3 H4 H5 H6) as [[a Ha] [b Hb]].
+    rewrite Ha, Hb. split; discriminate.
+  - intros p name tag H. destruct (parse_x86_arg_list_total p name H) as [r ->]. discriminate.
+Qed.
+Print Assumptions c03_process_total_partial.
+
 (* ---- non-vacuity *)
 (* "H\nMax cpu time  unlimited  5  seconds\nx\nMax nice  0  0\n": one short line skipped *)
 Example c03_nonvacuous_limits :
@@ -150,4 +224,10 @@ Qed.
 
 Example c03_nonvacuous_requesting :
   index_requesting [10; 20; 30] [7; 8; 9] (Some 7) (Some 9) = Ret (Some 30).
+Proof. vm_compute. reflexivity. Qed.
+
+(* `Widget::paint(int, std::map<K, V>)\u{a0}const`: thiscall, two arguments, NBSP after the paren is harmless *)
+Example c03_nonvacuous_args :
+  parse_x86_arg_list Debug [87;58;58;112;40;105;110;116;44;32;109;60;75;44;32;86;62;41;160;99] =
+  Ret (Some (WindowsThisCall, [[105;110;116]; [109;60;75;44;32;86;62]])).
 Proof. vm_compute. reflexivity. Qed.
